@@ -180,7 +180,10 @@ fn check_view<N: std::fmt::Debug, C>(what: &str, t: &Topology<N, C>, view: &Valu
         return Err(err(&format!("{what}: connected"), &view["connected"], t.connected()));
     }
     if t.bidirectional() != view["bidirectional"].as_bool().unwrap() {
-        return Err(err(&format!("{what}: bidirectional"), &view["bidirectional"], t.bidirectional()));
+        // what the node-level reading ("some edge leads back to the source node") says about the expected edge set
+        let node_level = exp_edges.iter().all(|e| exp_edges.iter().any(|f| f.0 == e.1 && f.1 == e.0));
+        let tag = if t.bidirectional() == node_level { " [answers at node level: an edge back to the source node, not between the same two gates]" } else { "" };
+        return Err(err(&format!("{what}: bidirectional{tag}"), &view["bidirectional"], t.bidirectional()));
     }
     Ok(4 + exp_nodes.len() as u64)
 }
@@ -296,6 +299,13 @@ fn replay_one(obs: &Value, owner: &[usize], nm: usize, variant: usize) -> Result
                 if lt { f < to } else { f > to }
             });
             checks += check_view(&format!("filter_edges(from {} to)", if lt { "<" } else { ">" }), &t, &a["view"], &b, &gate_path)?;
+        }
+        for c in obs["cut"].as_array().map(|a| a.as_slice()).unwrap_or(&[]) {
+            let k = c["cut"].as_u64().unwrap() as usize;
+            let kp = gate_path(k);
+            let mut t = topo.clone();
+            t.filter_edges(|e| e.from.gate().path().as_str() != kp);
+            checks += check_view(&format!("filter_edges(not starting at {kp})"), &t, &c["view"], &b, &gate_path)?;
         }
         for d in obs["dijkstra"].as_array().unwrap() {
             let src = &b.mod_paths[d["src"].as_u64().unwrap() as usize - 1];
